@@ -17,14 +17,23 @@ token stream holds for valid and invalid messages alike):
    they point at (`positions_irrelevant`, `diagnostics_move_with_tokens`);
  * keywords, type names, booleans, the stream/function token, the wait bit and the direction are
    classified and valued through their upper-case form (`keyword_case`, `header_tokens_upper`).
-`layout_invariance_partial`: the statement for a whole text with several edits at once needs that
-the tokens lexed before an edited boundary do not depend on what follows it (lexer locality,
-Proofs/LexLocal has the building blocks); it is exercised by the metamorphic layout suite on the
-real code and by the correspondence run on both renderings.
+* anywhere in a text, behind any line break that does not stand inside a size declaration (the
+   text up to it is lexed without a lexing error): a comment line with any bytes can be put
+   there, and the white space that follows - indentation, blank lines - can be replaced by any
+   other, without changing what is parsed, valid or not (`edit_behind_line_break`,
+   `comment_line_anywhere`, `blank_run_at_line_start`; from the locality of the lexer,
+   `Lex.lexFrom_concat`);
+`layout_invariance_partial`: edits INSIDE a line (the amount of white space between two tokens of
+one line, a comment behind the last token of a line, letter case of number prefixes) are theorems
+only at a boundary the lexer is known to reach in both texts (`layout_invariance_at_boundary`);
+that the tokens of one line in front of such an edit are lexed alike needs locality of the lexer
+in front of any blank, not only in front of a line break. It is exercised by the metamorphic
+layout suite on the real code and by the correspondence run on both renderings.
 -/
 import SecsModel.Model.Lexer
 import SecsModel.Proofs.LexLayout
 import SecsModel.Proofs.ParserNat
+import SecsModel.Proofs.LexConcat
 import SecsModel.Generated.Facts
 namespace Secs.C08
 open Secs Secs.Lex Secs.Sml
@@ -232,6 +241,43 @@ theorem boundary_comment (ual : List Nat) (m : Mode) (ws c y : Bytes) (hws : ∀
   have hb := blank_run_invisible ual m [10] y (by simp [isBlank])
   rw [show [10] ++ y = 10 :: y by rfl] at hb
   rw [hb]
+
+/-! ### edits between lines, anywhere in a text (lexer locality, Proofs/LexConcat) -/
+
+/-- **An edit behind a line break.** `x` ends with a line break and is lexed (from mode `m`)
+without a lexing error - the line break does not stand inside a size declaration. If two
+continuations are lexed alike (comments aside) in whatever mode, then so are the whole texts. -/
+theorem edit_behind_line_break (ual : List Nat) (m : Mode) (x y1 y2 : Bytes) (hx : EndsLF x)
+    (hne : ∀ t ∈ (lexFrom ual m x).map eraseT, t.kind ≠ .error)
+    (h : ∀ m', ((lexFrom ual m' y1).map eraseT).filter notComment = ((lexFrom ual m' y2).map eraseT).filter notComment) :
+    ((lexFrom ual m (x ++ y1)).map eraseT).filter notComment = ((lexFrom ual m (x ++ y2)).map eraseT).filter notComment := by
+  obtain ⟨ts1, a1, a2, _⟩ := lexFrom_concat ual y1 x.length x m (Nat.le_refl _) hx hne
+  obtain ⟨ts2, b1, b2, _⟩ := lexFrom_concat ual y2 x.length x m (Nat.le_refl _) hx hne
+  have : ts1 = ts2 := by
+    rw [a1] at b1
+    exact List.append_cancel_right b1
+  subst this
+  rw [a2, b2, List.filter_append, List.filter_append, h]
+
+/-- a comment line with any bytes, put between any two lines of a text, changes nothing in what
+is parsed (valid or not) -/
+theorem comment_line_anywhere (ual : List Nat) (x c y : Bytes) (hx : EndsLF x)
+    (hne : ∀ t ∈ (lexFrom ual .header x).map eraseT, t.kind ≠ .error) (hc : ∀ b ∈ c, b ≠ 10) :
+    (parse ual (x ++ (47 :: 47 :: c ++ 10 :: y))).content = (parse ual (x ++ y)).content := by
+  rw [parse_eq, parse_eq]
+  apply content_of_erased_modulo_comments
+  exact edit_behind_line_break ual .header x _ _ hx hne (fun m' => comment_invisible ual m' c y hc)
+
+/-- the white space at the start of any line - indentation, blank lines, a CR - can be replaced by
+any other run of blanks, tabs, CRs and line breaks without changing what is parsed -/
+theorem blank_run_at_line_start (ual : List Nat) (x ws ws' y : Bytes) (hx : EndsLF x)
+    (hne : ∀ t ∈ (lexFrom ual .header x).map eraseT, t.kind ≠ .error)
+    (h : ∀ b ∈ ws, isBlank b = true) (h' : ∀ b ∈ ws', isBlank b = true) :
+    (parse ual (x ++ (ws ++ y))).content = (parse ual (x ++ (ws' ++ y))).content := by
+  rw [parse_eq, parse_eq]
+  apply content_of_erased_modulo_comments
+  exact edit_behind_line_break ual .header x _ _ hx hne (fun m' => by rw [blank_runs_equivalent ual m' ws ws' y h h'])
+
 
 /-! ### tie to the source: what the two main states skip, and the comment trimming set -/
 theorem facts_whitespace :
